@@ -78,11 +78,11 @@ template <class T> std::string show_res (const Matrix44<T>& a)
 
 struct FTally
 {
-    long long frusta = 0, ops = 0, threw = 0, returned = 0, near_threshold = 0, overflow_div = 0, zero_over_zero = 0, zero_over_zero_returned = 0, benign = 0;
+    long long frusta = 0, ops = 0, threw = 0, returned = 0, near_threshold = 0, overflow_div = 0, zero_over_zero = 0, zero_over_zero_returned = 0, benign = 0, wide_z = 0, wide_z_threw = 0;
     void add (const FTally& o)
     {
         frusta += o.frusta; ops += o.ops; threw += o.threw; returned += o.returned; near_threshold += o.near_threshold; overflow_div += o.overflow_div;
-        zero_over_zero += o.zero_over_zero; zero_over_zero_returned += o.zero_over_zero_returned; benign += o.benign;
+        zero_over_zero += o.zero_over_zero; zero_over_zero_returned += o.zero_over_zero_returned; benign += o.benign; wide_z += o.wide_z; wide_z_threw += o.wide_z_threw;
     }
 };
 
@@ -204,6 +204,21 @@ template <class T> struct FrustumChecker
         C07_OP ("ZToDepthExc", T, T, in, F.ZToDepth (zval, zmin, zmax), F.ZToDepthExc (zval, zmin, zmax), q, nq, true, t);
     }
 
+    // Z ranges WIDER than INT_MAX (ZToDepth / ZToDepthExc take long arguments; both copies narrow zmax-zmin the same way):
+    // purely differential - the pair must agree bit for bit, and a throw must be the documented type.  No quotient
+    // judgement: what zmax-zmin becomes after the narrowing is not part of the documented behaviour.
+    void z_to_depth_wide (const P6<T>& p, long zval, long zmin, long zmax, FTally& t) const
+    {
+        static const std::string op = std::string ("Frustum<") + tname<T> () + ">::ZToDepthExc.z-range-wider-than-INT_MAX";
+        FX<T> F (p.n, p.f, p.l, p.r, p.t, p.b, p.ortho);
+        ++t.ops; ++t.wide_z;
+        T   u = F.ZToDepth (zval, zmin, zmax), c = T ();
+        int th = run_checked ([&] { c = F.ZToDepthExc (zval, zmin, zmax); });
+        auto in = [&] () { return showf (p) + " zval=" + std::to_string (zval) + " zmin=" + std::to_string (zmin) + " zmax=" + std::to_string (zmax); };
+        if (th == NONE) { ++t.returned; if (!same_res (c, u)) C0X_FAIL (op + ".bitwise-vs-unchecked", in (), show_res (u), show_res (c)); }
+        else { ++t.threw; ++t.wide_z_threw; if (th != DOMAIN_ERROR) C0X_FAIL (op + ".exception-type", in (), "std::domain_error", thrown_name (th)); }
+    }
+
     void depth_to_z (const P6<T>& p, T depth, long zmin, long zmax, FTally& t) const
     {
         FX<T>   F (p.n, p.f, p.l, p.r, p.t, p.b, p.ortho);
@@ -269,6 +284,11 @@ template <class T> void all_ops (const FrustumChecker<T>& ck, const P6<T>& p, co
     for (T z : {T (0), T (0.25), T (0.5), T (1), T (2), T (-1), down (T (1)), tden<T> (), tmax<T> ()}) ck.normalized_z (p, z, t);
     for (auto& zp : ZP)
         for (long zv : {zp[0], zp[1], zp[1] + 1, zp[1] + 2, (zp[0] + zp[1]) / 2, -1L}) ck.z_to_depth (p, zv, zp[0], zp[1], t);
+    {
+        static const long ZW[4][2] = {{0, 4294967295L}, {-2147483648L, 2147483647L}, {0, 1L << 40}, {-5, 2147483647L}};
+        for (auto& zw : ZW)
+            for (long zv : {zw[0], zw[1], zw[0] + (zw[1] - zw[0]) / 2, zw[1] + 2}) ck.z_to_depth_wide (p, zv, zw[0], zw[1], t);
+    }
     if (!rich)
     {   // a reduced argument alphabet (used inside the guard families, where the frustum itself carries the threshold)
         ck.local_to_screen (p, Vec2<T> (T (0.3), T (-0.7)), t);
@@ -307,6 +327,7 @@ template <class T> void publish (const FTally& t)
     R ().cls ("frustum.quotient>=max/4-or-nonfinite-operand-without-overflow", t.near_threshold);
     R ().cls ("frustum.well-conditioned(all-quotients<=max/8)", t.benign);
     R ().cls ("frustum.0/0", t.zero_over_zero);
+    R ().cls ("frustum.ZToDepth.z-range-wider-than-INT_MAX", t.wide_z);
     R ().add (std::string ("frustum<") + tname<T> () + "> operations that returned a 0/0 NaN without throwing (information)", t.zero_over_zero_returned);
 }
 
